@@ -253,6 +253,10 @@ impl TDigestMut {
         for &c in &other.centroids {
             tmp.push(c);
         }
+        // The other digest's extremes are not recoverable from its centroid means when its first
+        // or last centroid is heavy (as a deserialized digest's may be).
+        self.min = self.min.min(other.min);
+        self.max = self.max.max(other.max);
         self.do_merge(tmp, self.buffer.len() as u64 + other.total_weight())
     }
 
